@@ -196,7 +196,9 @@ impl LoWorkload {
         let k = if with_ref { *rng.pick(&[15usize, 17, 19, 21, 25, 31, 33]) } else { *rng.pick(&[7usize, 9, 11, 13, 15, 17, 19, 21, 23, 25, 27, 29, 31, 33]) };
         let m = k - 1;
         let nsites_max = if k <= 9 { 3 } else { 6 };
-        let nsites = rng.range(1, nsites_max);
+        // a tenth of the larger-k cases are long chains (7..12 sites): variant groups that span more
+        // bubbles than the path depth, overlapping groups, groups whose SNPs are partly called already
+        let nsites = if k >= 11 && rng.chance(10) { rng.range(7, 12) } else { rng.range(1, nsites_max) };
         // first/last site >= k from the ends, sites >= 2k apart, plus slack
         let slack: usize = (0..=nsites).map(|_| rng.below(k + 4)).sum();
         let len = 2 * k + (nsites - 1) * 2 * k + slack + 2;
@@ -478,7 +480,7 @@ impl Workload for LoWorkload {
     }
     fn rule(&self) -> String {
         if self.property == "C17" {
-            "one run = one planted-truth genome set: an ancestor whose (k-1)-mers are unique on both strands (greedy walk with backtracking, so k=7 is reachable), 3..10 samples with 1..6 substitution sites >= 2k apart and >= k from the ends (bi- and tri-allelic, random assignment), kept only if every sample stays inside the domain; k in 7..33 (reference mode k >= 15, reference = ancestor or its reverse complement); ska build then ska lo at several (threads 1..8, cores, hash seed, policy, hook subset) points. Oracle: exactly one column per planted site with every sample's base up to order and complement; with -r every VCF record at its true coordinate with true REF/ALT and genotypes, pseudo-genomes agree at called positions. A second stream of arbitrary inputs (close SNPs, indels, N) checks well-formedness only. Non-trivial = lo succeeded at least once and its output was compared; distinct = distinct hash of (genomes, planted sites, variants)".into()
+            "one run = one planted-truth genome set: an ancestor whose (k-1)-mers are unique on both strands (greedy walk with backtracking, so k=7 is reachable), 3..10 samples with 1..6 (a tenth of the cases 7..12) substitution sites >= 2k apart and >= k from the ends (bi- and tri-allelic, random assignment), kept only if every sample stays inside the domain; k in 7..33 (reference mode k >= 15, reference = ancestor or its reverse complement); ska build then ska lo at several (threads 1..8, cores, hash seed, policy, hook subset) points. Oracle: exactly one column per planted site with every sample's base up to order and complement; with -r every VCF record at its true coordinate with true REF/ALT and genotypes, pseudo-genomes agree at called positions. A second stream of arbitrary inputs (close SNPs, indels, N) checks well-formedness only. Non-trivial = lo succeeded at least once and its output was compared; distinct = distinct hash of (genomes, planted sites, variants)".into()
         } else {
             "one run = an ancestor with unique (k-1)-mers and 1..3 planted insertions/deletions of length 1..10, >= 4k apart, random carrier sets for 3..8 samples, k in {11,15,21,31}; ska build then ska lo at (threads 1..4, cores, hash seed, policy, hook subset) points. Oracle per VCF record by string search in the generated samples: before+REF+after (or its reverse complement) occurs in exactly the samples genotyped 0, before+ALT+after in exactly those genotyped 1; every record maps to one planted indel, none twice; recall >= 90% over the batch. Non-trivial = lo succeeded and the indel VCF was checked; distinct = distinct hash of (genomes, indels, variants)".into()
         }
